@@ -330,3 +330,16 @@ M('C13', 'replica-index-mismatch', DS, "            all_exponents[current_replic
 M('C13', 'gather-other-axis', DS, "        preconditioners = jax.lax.all_gather(preconditioners, batch_axis_name)\n        metrics = jax.lax.all_gather(metrics, batch_axis_name)\n        preconditioners_flat = unbatch(preconditioners)", "        preconditioners = jax.lax.all_gather(preconditioners, 'batch')\n        metrics = jax.lax.all_gather(metrics, batch_axis_name)\n        preconditioners_flat = unbatch(preconditioners)")
 M('C13', 'quantized-precond-diag-slice', DS, "      ] + packed_quantized_diagonals[total - to_pad:]", "      ] + packed_quantized_diagonals[total - to_pad + 1:]")
 TW('C13', 'twin-pad-formula-variable', DS, "    to_pad = -num_statistics % num_devices\n    packed_statistics.extend([", "    to_pad = (-num_statistics) % num_devices\n    packed_statistics.extend([")
+
+# ------------------------------------------------------------------ C14
+M2('C14', 'closure-step-counter', [(DS, "  def update_fn(grads, state, params):\n    \"\"\"Transform the input gradient and update all statistics.\n", "  host_steps = [0]\n\n  def update_fn(grads, state, params):\n    \"\"\"Transform the input gradient and update all statistics.\n"),
+                                   (DS, "    params_flat, treedef = jax.tree.flatten(params)\n    stats_flat = treedef.flatten_up_to(state.stats)", "    host_steps.append(len(host_steps))\n    params_flat, treedef = jax.tree.flatten(params)\n    stats_flat = treedef.flatten_up_to(state.stats)")])
+M2('C14', 'nonlocal-counter', [(SM3, "  def update_fn(updates, state, params):\n    stats = state.stats", "  calls = 0\n\n  def update_fn(updates, state, params):\n    nonlocal calls\n    calls += 1\n    stats = state.stats")])
+M('C14', 'global-rng-start-vector', DS, "  v_0 = np.random.RandomState(1729).uniform(-1.0, 1.0,\n                                            matrix_size).astype(matrix.dtype)", "  v_0 = np.random.uniform(-1.0, 1.0,\n                          matrix_size).astype(matrix.dtype)")
+M('C14', 'unseeded-generator', DS, "  v_0 = np.random.RandomState(1729).uniform(-1.0, 1.0,", "  v_0 = np.random.RandomState().uniform(-1.0, 1.0,")
+M2('C14', 'memoised-root', [(TS, "def _pth_inv_root(p: int, cov: jax.Array) -> jax.Array:", "@functools.lru_cache(maxsize=8)\ndef _pth_inv_root(p: int, cov: jax.Array) -> jax.Array:")])
+M2('C14', 'module-cache-dict', [(TS, "def _blocks_metadata(\n    options: Options, param_shape: Sequence[int], debug: str\n) -> _BlocksMetadata:\n  \"\"\"Generate the blocks metadata for a parameter.\"\"\"\n", "_META_CACHE = {}\n\n\ndef _blocks_metadata(\n    options: Options, param_shape: Sequence[int], debug: str\n) -> _BlocksMetadata:\n  \"\"\"Generate the blocks metadata for a parameter.\"\"\"\n  _META_CACHE[debug] = tuple(param_shape)\n")])
+M('C14', 'sketchy-count-float', SK, "  return _SketchyState(\n      count=jnp.zeros([], jnp.int32),", "  return _SketchyState(\n      count=jnp.zeros([], jnp.float32),")
+M('C14', 'state-attr-store', GR, "    new_state = GraftingState(\n        count=state.count + 1,\n        direction=base_state,\n        norm=graft_state,\n    )", "    new_state = GraftingState(\n        count=state.count + 1,\n        direction=base_state,\n        norm=graft_state,\n    )\n    direction.last_state = base_state")
+M('C14', 'clock-dependent-interval', TS, "  should_update_stats = (state.count % options.update_statistics_freq) == 0", "  import time\n  should_update_stats = ((state.count + int(time.time()) % 1) % options.update_statistics_freq) == 0")
+TW('C14', 'twin-local-list-building', DS, "    new_padded_statistics = []\n    padding_starts = []", "    new_padded_statistics = list()\n    padding_starts = []")
